@@ -20,3 +20,8 @@ chk("C14","exploration",
  "All 63 x 63 (value type, callback type) pairs for the three resolvers, all callback lists up to length 3 (thorough 4) over a 7-element per-type alphabet, all 'type' arrays up to length 3 over 5 names x 6 callback sets, predicate outcomes and 13 wrong constructor shapes are executed with callbacks manufactured by reflect.MakeFunc; oracle: exactly the first own-type callback runs and its error comes back by identity, otherwise nothing runs and IsUnmatchedErr holds.",
  "Trusted: reflect.MakeFunc callbacks are matched by the resolvers' type switches exactly like hand-written functions (checked). For multi-valued type the own type is the first known entry (ToType must agree).",
  "bounded-exhaustive enumeration of (value, callback list) combinations against a first-match oracle","DESIGN.md 3 C14","onto")
+
+chk("C11","exploration",
+ "Decoder: every type x every member name x 36 junk values x {scalar, list} through decode-encode-decode-encode (about 0.9 M documents) plus every vocabulary example with each node mutated; handlers: for each of ~65 scenarios covering all entry points, every JSON node of the request body and of every stored / dereferenced document the run reads is mutated by 19 operators one at a time (thorough: two at a time), plus whole-document replacements and recursion limits; the oracle is: no panic (recovered and attributed to the top library frame and its source line) and return within a seam-call horizon; shards run in worker processes so that a fatal error is attributed, not fatal to the check.",
+ "Bounded junk alphabet and grammar mutations replace arbitrary byte strings (coverage-guided fuzzing is sampling and is not used). A hang that makes no seam call is caught only by the worker timeout.",
+ "bounded-exhaustive mutation enumeration (deviation bound 1 / 2) over request bodies and environment documents","DESIGN.md 3 C11")
